@@ -5,6 +5,8 @@
 //	provider  a provider configuration is built, its discovery document is fetched like an RP would, and every
 //	          statement of the document the property talks about is tried out against the same handler
 //	issuer    an issuer string assembled from a labelled grammar is handed to op.NewProvider / op.ValidateIssuer
+//	pair      two providers with different configurations in one process, their discovery answers interleaved by the
+//	          harness (pair_test.go); each document is judged like the one of a provider case
 //	discover  client.Discover is pointed (through an in-process RoundTripper) at a document with an equal /
 //	          different / near-equal issuer
 package c19
@@ -37,6 +39,7 @@ type Case struct {
 	P    *ProviderCase `json:"p,omitempty"`
 	I    *IssuerCase   `json:"i,omitempty"`
 	D    *DiscoverCase `json:"d,omitempty"`
+	Pair *PairCase     `json:"pair,omitempty"`
 }
 
 // EPShape customises one endpoint: path (custom route), under (absolute URL below the issuer in front of the
@@ -474,7 +477,9 @@ func genDiscover(t *rapid.T) *DiscoverCase {
 }
 
 func genCase(t *rapid.T) Case {
-	switch rapid.SampledFrom([]string{"provider", "provider", "provider", "provider", "provider", "issuer", "issuer", "issuer", "discover", "discover"}).Draw(t, "kind") {
+	switch rapid.SampledFrom([]string{"provider", "provider", "provider", "provider", "provider", "issuer", "issuer", "issuer", "discover", "discover", "pair", "pair"}).Draw(t, "kind") {
+	case "pair":
+		return Case{Kind: "pair", Pair: genPair(t)}
 	case "issuer":
 		return Case{Kind: "issuer", I: genIssuer(t)}
 	case "discover":
@@ -502,6 +507,8 @@ func run(c Case) (res *vkit.Result) {
 		runIssuer(c.I, res)
 	case c.Kind == "discover" && c.D != nil:
 		runDiscover(c.D, res)
+	case c.Kind == "pair" && c.Pair != nil && c.Pair.A != nil && c.Pair.B != nil:
+		runPair(c.Pair, res)
 	default:
 		res.Grey = true
 		res.Label("kind:malformed")
@@ -694,25 +701,7 @@ func runProvider(pc *ProviderCase, res *vkit.Result) {
 	info := map[string]any{}
 	res.Info = info
 
-	web := &vkit.ClientSpec{ID: "web", Secret: "web-secret", AppType: "web", AuthMethod: pc.WebAuth,
-		GrantTypes: []string{vkit.GCode, vkit.GRefr, vkit.GImpl, vkit.GBearer, vkit.GTE, vkit.GDevice}, ResponseTypes: []string{"code", "id_token", "id_token token"},
-		RedirectURIs: []string{redirectWeb, redirectWeb2}, Keys: map[string]string{"wk1": "rsa2"}, JWTAccessToken: pc.JWTAT}
-	machAuth := "client_secret_basic"
-	if pc.MachAuth == "client_secret_post" {
-		machAuth = pc.MachAuth
-		res.Label("mach-auth:post")
-	}
-	if pc.AuthzVia == "post" {
-		res.Label("authz-via:post")
-	}
-	mach := &vkit.ClientSpec{ID: "mach", Secret: machSecret, AppType: "web", AuthMethod: machAuth,
-		GrantTypes: []string{vkit.GCode, vkit.GRefr, vkit.GCC, vkit.GBearer, vkit.GTE, vkit.GDevice}, ResponseTypes: []string{"code"},
-		RedirectURIs: []string{redirectWeb, redirectWeb2}, Keys: map[string]string{"mk1": "rsa3"}, JWTAccessToken: true, Service: true}
-	pub := &vkit.ClientSpec{ID: "pub", AppType: "user_agent", AuthMethod: "none", GrantTypes: []string{vkit.GCode, vkit.GRefr},
-		ResponseTypes: []string{"code"}, RedirectURIs: []string{redirectPub}}
-	st := vkit.NewStore([]*vkit.ClientSpec{web, mach, pub}, vkit.SignKeySpec{KeyName: pc.SignKey, Alg: pc.SignAlg, KID: "sig1"}, vkit.StorePolicy{})
-
-	sut, err := buildSUT(pc.spec(), st)
+	sut, st, cl, err := setupProvider(pc, res)
 	if err != nil {
 		res.Fail("C19:construct-valid-config", "NewProvider refused a valid configuration (issuer %q mode %s insecure=%v): %v", pc.Issuer, pc.IssuerMode, pc.Insecure, err)
 		return
@@ -735,7 +724,7 @@ func runProvider(pc *ProviderCase, res *vkit.Result) {
 		if i == 0 {
 			vinfo = info
 		}
-		sum := judgeView(pc, res, sut, st, view, i, vinfo, [3]*vkit.ClientSpec{web, mach, pub})
+		sum := judgeView(pc, res, sut, st, view, i, vinfo, cl, nil)
 		summaries = append(summaries, sum)
 		// identical requests to one provider are answered with the same statements
 		for j := 0; j < i; j++ {
@@ -760,16 +749,43 @@ func runProvider(pc *ProviderCase, res *vkit.Result) {
 	info["issuers_by_view"] = issuers
 }
 
+// setupProvider registers the probing clients, builds the storage and the provider of a provider case (wrap: see buildSUT).
+func setupProvider(pc *ProviderCase, res *vkit.Result, wrap ...func(op.Storage) op.Storage) (*vkit.SUT, *vkit.Store, [3]*vkit.ClientSpec, error) {
+	web := &vkit.ClientSpec{ID: "web", Secret: "web-secret", AppType: "web", AuthMethod: pc.WebAuth,
+		GrantTypes: []string{vkit.GCode, vkit.GRefr, vkit.GImpl, vkit.GBearer, vkit.GTE, vkit.GDevice}, ResponseTypes: []string{"code", "id_token", "id_token token"},
+		RedirectURIs: []string{redirectWeb, redirectWeb2}, Keys: map[string]string{"wk1": "rsa2"}, JWTAccessToken: pc.JWTAT}
+	machAuth := "client_secret_basic"
+	if pc.MachAuth == "client_secret_post" {
+		machAuth = pc.MachAuth
+		res.Label("mach-auth:post")
+	}
+	if pc.AuthzVia == "post" {
+		res.Label("authz-via:post")
+	}
+	mach := &vkit.ClientSpec{ID: "mach", Secret: machSecret, AppType: "web", AuthMethod: machAuth,
+		GrantTypes: []string{vkit.GCode, vkit.GRefr, vkit.GCC, vkit.GBearer, vkit.GTE, vkit.GDevice}, ResponseTypes: []string{"code"},
+		RedirectURIs: []string{redirectWeb, redirectWeb2}, Keys: map[string]string{"mk1": "rsa3"}, JWTAccessToken: true, Service: true}
+	pub := &vkit.ClientSpec{ID: "pub", AppType: "user_agent", AuthMethod: "none", GrantTypes: []string{vkit.GCode, vkit.GRefr},
+		ResponseTypes: []string{"code"}, RedirectURIs: []string{redirectPub}}
+	st := vkit.NewStore([]*vkit.ClientSpec{web, mach, pub}, vkit.SignKeySpec{KeyName: pc.SignKey, Alg: pc.SignAlg, KID: "sig1"}, vkit.StorePolicy{})
+
+	sut, err := buildSUT(pc.spec(), st, wrap...)
+	return sut, st, [3]*vkit.ClientSpec{web, mach, pub}, err
+}
+
 // judgeView fetches the document with the headers of view and judges it against the same handler with the same
 // headers. idx 0 gets the full judgement (grants, PKCE, request object, client.Discover); the others: document,
 // endpoints below the issuer, iss of freshly issued tokens. Returns the statements of the document the property is about.
-func judgeView(pc *ProviderCase, res *vkit.Result, sut *vkit.SUT, st *vkit.Store, view View, idx int, info map[string]any, cl [3]*vkit.ClientSpec) map[string]any {
+func judgeView(pc *ProviderCase, res *vkit.Result, sut *vkit.SUT, st *vkit.Store, view View, idx int, info map[string]any, cl [3]*vkit.ClientSpec, first *vkit.Resp) map[string]any {
 	web, mach, pub := cl[0], cl[1], cl[2]
 	full := idx == 0
-	a := &ua{sut: sut, host: view.Host, fwd: view.Forwarded, via: pc.AuthzVia}
+	a := &ua{sut: sut, host: view.Host, fwd: view.Forwarded, via: pc.AuthzVia, firstDoc: first}
 
 	// 1. the document, fetched the way an RP does
-	d := a.get("/.well-known/openid-configuration", nil)
+	d := a.firstDoc
+	if d == nil {
+		d = a.get("/.well-known/openid-configuration", nil)
+	}
 	if d.Panic != nil {
 		res.Fail("C19:panic@"+d.PanicFrame(), "discovery panicked: %v", d.Panic)
 		return nil
@@ -1463,8 +1479,12 @@ func runDiscover(dc *DiscoverCase, res *vkit.Result) {
 // ---- properties ------------------------------------------------------------------------------
 
 const rule = "provider cases = router (op.Provider / LegacyServer) x 6 config flags x storage capabilities (cc, te, device, extras) x issuer strategy (static https/http issuers with ports, paths, trailing slash; from Host; from Forwarded) x Host header x Forwarded header(s) x 1-3 further (Host, Forwarded) combinations sent to the same provider instance (same Host / other Forwarded, other Host / same Forwarded, both different, finally the first again; each document must name the issuer of its own request, its endpoints must be routed, fresh tokens must carry it; identical requests must get identical statements) x per-endpoint shape (default / custom path / absolute URL below the issuer / absolute URL elsewhere / nil on LegacyServer) x signing key x client auth method; each is judged from its own discovery document: every advertised endpoint below the issuer is requested (404/405 = not routed), all flows then use the advertised addresses, each of the 6 token-endpoint grants is probed with a registered, authenticated, complete request (advertised <=> not unsupported_grant_type), iss of every JWT issued == document issuer, each advertised PKCE method accepts the right and refuses a wrong verifier, an advertised request-object support is tried with 1-3 generated request shapes (OIDC Core 6.1: each of redirect_uri, state, nonce, response_mode, prompt, max_age, login_hint, code_challenge as plain parameter / inside the object only / in both with different values / absent, scope and response_type plain or repeated (scope widened) in the object; aud as array / string / array with a further entry; signed by client web or mach; sent by GET query or POST form): the request must be accepted, the stored authorization request and the redirect must carry the object's value wherever the object has one and the plain value otherwise, a code challenge conveyed by the object must bind the code (right verifier accepted, superseded plain one refused); the other probes vary their shape too: authorization requests of the grant / PKCE probes by GET or POST, the machine client by client_secret_basic or (when enabled) client_secret_post, authorization / userinfo / end_session endpoints requested with GET and POST; client.Discover accepts the document for its issuer and refuses a near miss; " +
+	"pair cases (1 in 6) = TWO providers A and B in one process (B generated independently, or A with 1-3 of S256 / Post / PKJWT / Refresh / ReqObj / cc / te / device / router / signing key / issuer toggled; no endpoint options on the op.Provider router) and 1-3 steps with harness-owned interleaving: " +
+	"gate step = provider X's discovery request runs on a goroutine and is held INSIDE X's storage (SignatureAlgorithms, the storage call of the discovery builders; KeySet as a method discovery does not consult) on a gate while 1-3 generated actions happen (the other provider answers discovery / is judged completely / has its exported helper lists or op.CreateDiscoveryConfig computed; X itself answers a second discovery request or has its helpers called), " +
+	"then X is released and the document that was in flight is judged by the full oracle above (every wait is on a channel, no wall-clock verdict; identical requests to X must get identical bodies); held step = the lists returned for X by op.GrantTypes, Scopes, ResponseTypes, SubjectTypes, SigAlgorithms, RequestObjectSigAlgorithms, AuthMethods*Endpoint, *SigAlgorithms, SupportedClaims, CodeChallengeMethods, SupportedUILocales and the struct op.CreateDiscoveryConfig returned for X are held while the same actions happen, " +
+	"must read the same afterwards, and the held struct marshalled afterwards is judged as X's document; " +
 	"issuer cases = strings assembled from a labelled grammar (empty / scheme / separator / userinfo / host / port / path / query / fragment) x insecure opt-in x strategy, verdict from the labels (excluded as grey: other schemes, userinfo, upper-case scheme, empty '?' or '#'); discover cases = asked issuer x relation of the served document's issuer (equal, 15 near misses, missing) x well-known override; " +
-	"non-trivial = provider configuration differing from the all-defaults one / issuer with a must-accept or must-reject verdict / document issuer differing from the asked one; distinct = configuration class (router, flags, capabilities, issuer, host, forwarded, endpoint shapes, alg, client auth, authorization transport, request-object shapes) / issuer string x opt-in x strategy / (asked, served) pair"
+	"non-trivial = provider configuration differing from the all-defaults one / pair whose members differ in a grant capability or discovery-relevant setting / issuer with a must-accept or must-reject verdict / document issuer differing from the asked one; distinct = (configurations of A and B, steps) / configuration class (router, flags, capabilities, issuer, host, forwarded, endpoint shapes, alg, client auth, authorization transport, request-object shapes) / issuer string x opt-in x strategy / (asked, served) pair"
 
 var prop = vkit.Prop[Case]{ID: "C19", Rule: rule, Gen: genCase, Run: run}
 
